@@ -63,6 +63,9 @@ func genConc(prop string, seed uint64, run int, p concProfile, av avoid) *Case {
 			}
 		}
 	}
+	if p.mergeKinds {
+		g.shortMerges()
+	}
 	cs.Schema = append([]ColSpec{}, g.cols...)
 	cs.Cfg.KeyAlpha = g.keys
 	keyed := g.hasKey()
